@@ -217,6 +217,7 @@ func genCase(r *hx.Rand, layer string, opt genOpt, thorough bool) In {
 	if opt.bodiless && r.Chance(1, 8) {
 		in.Method = "HEAD"
 	}
+	hasCT, hasCE = ctPresent(ops), cePresent(ops) // the 1xx block may have changed them
 	if !explicit && layer == "srv" && !opt.sniffy && len(writes) > 0 && (!hasCT) {
 		// net/http sniffs the buffered prefix, the gzip wrapper the first chunk; keep the two equal in the main stream
 		first, _ := chunkBytes(writes[0])
